@@ -322,6 +322,28 @@ def first_difference(a, b):
     return '%s vs %s' % (short(a), short(b))
 
 
+_PRINTER = []
+
+
+def debug_printer(sink):
+    """the package's own Printer on a private logging.Logger whose only handler appends to `sink`"""
+    import logging
+    from pysmi import debug
+    if not _PRINTER:
+        class ListHandler(logging.Handler):
+            sink = None
+
+            def emit(self, record):
+                if self.sink is not None:
+                    self.sink.append(record.getMessage())
+        h = ListHandler()
+        lg = logging.getLogger('verif-c12-debug')
+        lg.propagate = False
+        _PRINTER.extend([debug.Printer(logger=lg, handler=h), h])
+    _PRINTER[1].sink = sink
+    return _PRINTER[0]
+
+
 def case_compiler(idx, rng, tier, res):
     """several compile() calls on one MibCompiler vs one call each on fresh compilers"""
     backend = rng.choice(['json', 'pysnmp'])
@@ -391,12 +413,24 @@ def case_compiler(idx, rng, tier, res):
         cur.update(pipeline.fixtures())
         cur.update(texts)
         written.clear()
+        # a quarter of the calls run with the package's debug logging switched on (every category):
+        # what is logged is the caller's business, what is returned must not change
+        dbg = rng.random() < 0.25
+        msgs = []
+        if dbg:
+            from pysmi import debug
+            debug.setLogger(debug.Debug('all', printer=debug_printer(msgs)))
         try:
             raw = shared.compile(*names, **opts)
             a = summarize(raw, written)
             earlier.append((raw, dict(written), a))
         except Exception as exc:
             a = ('raised', type(exc).__name__, str(exc)[:100])
+        finally:
+            if dbg:
+                debug.setLogger(0)
+                res.count('calls_with_debug_logging')
+                res.count('debug_messages_seen', len(msgs))
         try:
             r, w = pipeline.compile_set(texts, names, codegen=backend, **opts)
             b = summarize(r, w)
@@ -417,9 +451,10 @@ def case_compiler(idx, rng, tier, res):
             if diff:
                 kk = diff[0]
                 detail = '%s: %s' % (kk, first_difference(a.get(kk), b.get(kk)))
-            res.violation('compiler_history_dependence', 'compile() call %d on a long-lived MibCompiler (%s) '
-                          'differs from a fresh one for %s' % (k, backend, detail or short(a)),
-                          replay={'call': k, 'backend': backend}, component='compiler')
+            res.violation('compiler_history_dependence', 'compile() call %d on a long-lived MibCompiler (%s)%s '
+                          'differs from a fresh one for %s' % (k, backend, ' with debug logging on' if dbg else '',
+                                                               detail or short(a)),
+                          replay={'call': k, 'backend': backend, 'debug': dbg}, component='compiler')
     for raw, w, snap in earlier:
         res.count('kept_results_rechecked')
         if summarize(raw, w) != snap:
